@@ -321,7 +321,9 @@ class ConcEngine(object):
         sig, shared = interleaving_signature(w.run.log[setup_events:])
         res.stats["interleaving"] = sig
         res.stats["shared"] = shared
-        props = set(["C16"]) if mp else (classify_conc(calls) if calls else set(["C07"]))
+        # a concurrency violation in multiprocessing mode is a C16 violation and a violation of the
+        # concurrency property itself (C07 / C12 do not restrict the synchronisation mode)
+        props = (classify_conc(calls) if calls else set(["C07"])) | (set(["C16"]) if mp else set())
         scenario = {"tasks": prog["tasks"], "setup": prog.get("setup", [])}
         # C08 (a): termination
         if sch.failure is not None:
@@ -356,14 +358,13 @@ class ConcEngine(object):
                 if o3 is not None:
                     # everything but a reported digest map is explained by a sequential order
                     tag = "nonlin-digests-only"
-                    if not mp:
-                        props = set(["C02"])
+                    props = set(["C02"]) | (set(["C16"]) if mp else set())
                 elif any(c.op["op"] in META_OPS for c in calls):
                     o2, _ = linearize(mdl, split_delete_all(calls, len(w.formats)), fin)
                     if o2 is not None:
                         # explained entirely by delete-all acting document by document
                         tag = "nonlin-deleteall-split"
-                if not mp and tag == "nonlin":
+                if tag == "nonlin":
                     props = props | symptom_props(calls, why, prog.get("family"))
                 res.violations.append(Violation(
                     props, "linearizability", "%s:%s" % (tag, _nonlin_sig(calls, why)),
@@ -382,7 +383,7 @@ class ConcEngine(object):
                 pexp = m2.op_retrieve({"pid": pi})
                 out, _ = w.exec_op({"op": "retrieve", "pid": pi})
                 if not pexp.matches(out):
-                    if not mp and pexp.has_ok:
+                    if pexp.has_ok:
                         props = props | {"C04"}
                     res.violations.append(Violation(props, "probe", "conc-probe:retrieve:%s->%s" % (_expsig(pexp), _outsig(out)),
                                                     {"pid": w.pids[pi], "expected": pexp.describe(),
